@@ -6,7 +6,7 @@
    rings are abstract there (lists of recorded elements; whether ring.add succeeds, loses its CAS or
    finds the ring full is an input).  Tied to the code by the "stripe" engine (macro-step schedules
    replayed on the model). *)
-From Otter Require Import Base Ring RingProofs Striped StripedProofs.
+From Otter Require Import Base Ring RingProofs Striped StripedProofs StripedDrain.
 
 (* the protocol invariant holds after every schedule, from a fresh ring, for any number of producers *)
 Theorem C17_inv : forall first nprod sched, inv (ring_exec (ring_init first nprod) sched).
@@ -91,6 +91,18 @@ Theorem C17_striped_recorded_iff_success : forall maxl elems idxs sched j t,
   zcount (elem t) (concat (rings s)) = b2n (placed t).
 Proof. exact recorded_iff_success. Qed.
 Print Assumptions C17_striped_recorded_iff_success.
+
+(* the table and the rings together: DrainTo visits the rings of the current table; when it takes from
+   each of them everything recorded there (what C17's ring theorems establish for one ring at quiescence),
+   it delivers, over the whole buffer, every element whose Add succeeded exactly once and nothing else —
+   in every reachable state of the table, for every schedule of the Adds *)
+Theorem C17_striped_drain_delivers_exactly_the_recorded : forall maxl elems idxs sched j t,
+  NoDup elems -> length idxs = length elems ->
+  let s := srun (sinit maxl elems idxs) sched in
+  nth_error (sths s) j = Some t ->
+  zcount (elem t) (drain_all s) = b2n (placed t).
+Proof. exact drain_delivers_exactly_the_recorded. Qed.
+Print Assumptions C17_striped_drain_delivers_exactly_the_recorded.
 
 (* non-vacuity: two Adds on an empty buffer; the first creates the table, the second (probing the same
    cell) records into the same ring; both succeed and both elements are in the one visible ring *)
